@@ -511,6 +511,10 @@ Lemma validate_shape_wrong d s exp : shape_eqb exp (shape_of s) = false ->
   validate_shape d s exp = Some (XInputType (MsgShape (shape_msg d exp (shape_of s)))).
 Proof. intro H. unfold validate_shape. rewrite H. reflexivity. Qed.
 
+Lemma compare_simple_raise g tl c s ss e :
+  run_simple g tl c s = CRaise e -> compare_simple g tl c (s :: ss) = inr e.
+Proof. intro H. cbn [compare_simple]. rewrite H. reflexivity. Qed.
+
 (* the shape each shape-validating comparer expects of the student input, read off the first sample *)
 Definition expected_shape (c : comparer) (params : list value) : option (list Z) :=
   match c, params with
@@ -549,20 +553,21 @@ Proof.
     - (* span *)
       destruct (s_params s) as [|p0 r] eqn:P; try discriminate.
       destruct (same_length_vectors (p0 :: r)) eqn:SL; try discriminate. injection He as <-.
-      simpl. unfold run_simple. rewrite P.
-      assert (X : vector_span_cmp (Some (p_detail p)) tl (fun _ _ => s_ols s) (p0 :: r) (s_student s)
-                  = CRaise (XInputType (MsgShape (shape_msg (p_detail p) (shape_of p0) (shape_of (s_student s)))))).
-      { unfold vector_span_cmp. rewrite SL. simpl. rewrite V. reflexivity. }
-      destruct p0; simpl; rewrite X; reflexivity.
+      change (compare_evaluations (GMatrix p) tl CmpSpan (s :: ss)) with (compare_simple (GMatrix p) tl CmpSpan (s :: ss)).
+      apply compare_simple_raise. unfold run_simple. rewrite P.
+      change (vector_span_cmp (Some (p_detail p)) tl (fun _ _ => s_ols s) (p0 :: r) (s_student s)
+              = CRaise (XInputType (MsgShape (shape_msg (p_detail p) (shape_of p0) (shape_of (s_student s)))))).
+      unfold vector_span_cmp. rewrite SL. cbn [negb hd]. rewrite V. reflexivity.
     - (* phase *)
       destruct (s_params s) as [|p0 [|? ?]] eqn:P; try discriminate.
       destruct (is_vec p0) eqn:IV; try discriminate. injection He as <-.
-      simpl. unfold run_simple. rewrite P.
-      assert (X : vector_phase_cmp (Some (p_detail p)) tl (fun _ _ => s_ols s) [p0] (s_student s)
-                  = CRaise (XInputType (MsgShape (shape_msg (p_detail p) (shape_of p0) (shape_of (s_student s)))))).
-      { unfold vector_phase_cmp, vector_span_cmp, same_length_vectors. simpl. rewrite IV, shape_eqb_refl. simpl.
-        rewrite V. reflexivity. }
-      destruct p0; simpl; rewrite X; reflexivity.
+      change (compare_evaluations (GMatrix p) tl CmpPhase (s :: ss)) with (compare_simple (GMatrix p) tl CmpPhase (s :: ss)).
+      apply compare_simple_raise. unfold run_simple. rewrite P.
+      change (vector_phase_cmp (Some (p_detail p)) tl (fun _ _ => s_ols s) [p0] (s_student s)
+              = CRaise (XInputType (MsgShape (shape_msg (p_detail p) (shape_of p0) (shape_of (s_student s)))))).
+      assert (SL : same_length_vectors [p0] = true).
+      { unfold same_length_vectors. cbn [forallb hd]. rewrite IV, shape_eqb_refl. reflexivity. }
+      unfold vector_phase_cmp, vector_span_cmp. rewrite SL. cbn [length Nat.eqb negb andb hd]. rewrite V. reflexivity.
     - (* linear *)
       destruct (s_params s) as [|e r] eqn:P; try discriminate. injection He as <-.
       simpl. unfold linear_cmp. simpl. rewrite P. simpl. rewrite V. reflexivity. }
@@ -572,3 +577,31 @@ Qed.
 (* and a submission of the right shape is never reported as a shape mismatch by the validating step *)
 Lemma validate_shape_right d s exp : shape_eqb exp (shape_of s) = true -> validate_shape d s exp = None.
 Proof. intro H. unfold validate_shape. rewrite H. reflexivity. Qed.
+
+(* =========================================================================================== *)
+(* the decision functions used in the statements are what the comparers compute on well-shaped input *)
+(* =========================================================================================== *)
+Lemma eigen_cmp_core d tl m lam v : length v = length m ->
+  eigenvector_cmp (Some d) tl m lam (VVec v) = eigen_core tl m lam v.
+Proof.
+  intro H. unfold eigenvector_cmp, validate_shape. cbn [shape_of shape_eqb]. rewrite H, Z.eqb_refl. reflexivity.
+Qed.
+
+Lemma same_length_vectors_map ws n : ws <> [] -> Forall (fun w => length w = n) ws ->
+  same_length_vectors (map VVec ws) = true.
+Proof.
+  intros Hne H. unfold same_length_vectors. apply andb_true_iff. split.
+  - apply forallb_forall. intros p Hp. apply in_map_iff in Hp. destruct Hp as [w [<- _]]. reflexivity.
+  - destruct ws as [|w0 ws]; [contradiction|]. apply forallb_forall. intros p Hp.
+    apply in_map_iff in Hp. destruct Hp as [w [<- Hw]]. cbn [map hd shape_of shape_eqb].
+    rewrite Forall_forall in H. rewrite (H w Hw), (H w0 (or_introl eq_refl)), Z.eqb_refl. reflexivity.
+Qed.
+
+Lemma span_cmp_core d tl (ws : list cvec) (v : cvec) : ws <> [] -> Forall (fun w => length w = length v) ws ->
+  vector_span_cmp (Some d) tl lstsq_spec (map VVec ws) (VVec v) = span_core tl (lstsq_spec ws v) v.
+Proof.
+  intros Hne H. unfold vector_span_cmp. rewrite (same_length_vectors_map ws (length v) Hne H). cbn [negb].
+  destruct ws as [|w0 ws]; [contradiction|]. cbn [map hd]. unfold validate_shape. cbn [shape_of shape_eqb].
+  inversion H as [|? ? H0 _]; subst. rewrite H0, Z.eqb_refl. cbn [andb flat].
+  rewrite map_map. cbn [flat]. rewrite map_id. reflexivity.
+Qed.
